@@ -113,11 +113,18 @@ CHECKS["C11"] = dict(
     text=("Theorems C11_conn_send_inv, C11_conn_sched_indep, C11_conn_close_delivers, C11_conn_recv(_from), C11_conn_roundtrip, "
           "C11_conn_duplex, C11_conn_ring_refines hold for every operation sequence, flush placement, writer interleaving, "
           "read fragmentation and payload size: typed receives return exactly the values sent, in order; Close delivers "
-          "everything; counters equal bytes moved; the three-buffer ring never aliases. The same Lean definitions are "
+          "everything; counters equal bytes moved; the three-buffer ring never aliases. With failing or short transport Writes "
+          "of ANY pattern (transient or permanent) the wire is always a prefix of the sent stream (C11_conn_fault_prefix; the writer "
+          "stops after a failed Write, fix f07ee15; the old writer's gap is kept as C11_old_writer_gap_witness); success of all "
+          "operations and Close means full delivery and an error once reported stays reported (C11_conn_fault_reported); a stream "
+          "ending inside a value yields the complete values and then EOF, never a partial value (C11_conn_recv_eof_mid_value). "
+          "Fault-injection and mid-value EOF sessions run on the real Conn and are compared with the model. The same Lean definitions are "
           "executed on every run against the real p2p.Conn over a seeded fragmenting transport and over p2p.Pipe with every "
           "observable compared (Write chunk lengths, wire digest, Stats, received values, Read pattern, unread rest)."),
     note=TB + "Go channels assumed FIFO; conn.Write reads the queued buffer atomically; explicit domain guard Val.Valid "
-              "(outside it the Go code truncates); writerErr error path and Conn.Receive not covered.")
+              "(outside it the Go code truncates); the writerErr read is modelled as sequentially consistent, a short write returns an "
+              "error, the caller stops at its first error; Conn.Receive (OT glue) is not modelled. Structural facts come from the "
+              "compiled package (reflection, a fresh Conn, buffer identities), not from source text.")
 
 CHECKS["C04"] = dict(
     category="proof", design_ref="DESIGN.md section 2 / C04",
